@@ -198,6 +198,7 @@ type Source struct {
 	ctxs      []context.Context
 	released  []*atomic.Bool
 	tears     []*atomic.Int64
+	over      []*atomic.Bool // the subscription issued its own terminal notification
 	emissions []Emission
 	seq       int
 	SubCtxSub []string // subscription marker seen at each Subscribe
@@ -251,12 +252,14 @@ func (s *Source) subscribe(ctx context.Context, dest ro.Observer[int]) ro.Teardo
 		s.ctxs = append(s.ctxs, nil)
 		s.released = append(s.released, nil)
 		s.tears = append(s.tears, nil)
+		s.over = append(s.over, nil)
 		s.SubCtxSub = append(s.SubCtxSub, "")
 	}
 	s.dests[idx] = dest
 	s.ctxs[idx] = ctx
 	s.released[idx] = rel
 	s.tears[idx] = tc
+	s.over[idx] = &atomic.Bool{}
 	s.ready.Add(1)
 	if ctx == nil {
 		s.CtxNil++
@@ -369,6 +372,9 @@ func deliver(dest ro.Observer[int], ctx context.Context, n Notif) {
 func (s *Source) emit(idx int, n Notif) Emission {
 	s.mu.Lock()
 	dest, ctx, rel := s.dests[idx], s.ctxs[idx], s.released[idx]
+	if n.K != rec.Next {
+		s.over[idx].Store(true)
+	}
 	s.seq++
 	tag := fmt.Sprintf("%s#%d", s.Name, s.seq)
 	ei := len(s.emissions)
@@ -430,6 +436,20 @@ func (s *Source) WaitTimeout(d time.Duration) bool {
 
 // Released reports Subscribed == TornDown-at-least-once for every subscription (Live == 0).
 func (s *Source) Released() bool { return s.Live.Load() == 0 }
+
+// Running returns the number of subscriptions that are neither released nor
+// over (a subscription is over once it issued its terminal notification).
+func (s *Source) Running() int {
+	s.mu.Lock()
+	defer s.mu.Unlock()
+	n := 0
+	for i := range s.released {
+		if s.released[i] != nil && !s.released[i].Load() && !s.over[i].Load() {
+			n++
+		}
+	}
+	return n
+}
 
 // TeardownCounts returns how often the teardown of each subscription ran.
 func (s *Source) TeardownCounts() []int64 {
